@@ -148,22 +148,25 @@ struct KrylovMeter
         l.i("qbeta", q(std::fabs(beta - fnB) / scale));
         // shape of H: exact zeros below the first subdiagonal; Lanczos: tridiagonal, real, symmetric
         int hess = 1, tri = 1;
+        LD himag = 0, hlow = 0;
         for (int j = 0; j < k; j++)
             for (int i = 0; i < k; i++)
             {
                 if (i > j + 1 && Hk(i, j) != CLD(0, 0))
+                {
                     hess = 0;
+                    hlow = std::max(hlow, std::abs(Hk(i, j)));
+                }
                 if (lanczos)
                 {
                     if ((i > j + 1 || j > i + 1) && Hk(i, j) != CLD(0, 0))
                         tri = 0;
-                    if (Hk(i, j).imag() != 0)
-                        tri = 0;
+                    himag = std::max(himag, std::fabs(Hk(i, j).imag()));
                     if (Hk(i, j).real() != Hk(j, i).real())
                         tri = 0;
                 }
             }
-        l.i("hess", hess).i("tri", lanczos ? tri : 1).i("lz", lanczos ? 1 : 0);
+        l.i("hess", hess).i("tri", lanczos ? tri : 1).i("lz", lanczos ? 1 : 0).i("qHim", lanczos ? q(himag / scale) : QZERO).i("qHlow", q(hlow / scale));
         l.i("fin", all_finite(Vk) && all_finite(Hk) && all_finite(fl) ? 1 : 0);
         out().put(l);
     }
